@@ -559,6 +559,93 @@ def correspond(ctx, aliases):
                 ctx.disagree("path_with_base", {"path": p, "base": base}, {"ok": got, "parent": par}, r)
     finally:
         shutil.rmtree(tmp_root, ignore_errors=True)
+    correspond_trajectories(ctx, aliases)
+
+
+def tok_traj(aliases, d):
+    """tokenised form of the JSON file written by save_rdtrajectory"""
+    out = dict(d)
+    if isinstance(d.get("script"), dict):
+        out["script"] = tok(aliases, "script", d["script"])
+    if isinstance(d.get("system"), dict):
+        out["system"] = tok(aliases, "system", d["system"])
+    return out
+
+
+def rv_traj(t):
+    return {"data": rv_arr(t.data), "t": rv_arr(t.t), "system": rv_system(t.system),
+            "script": None if t.script is None else rv_script(t.script), "engine_description": t.engine_description,
+            "engine_option": t.engine_option, "cgmap": None if t.cgmap is None else [int(v) for v in t.cgmap]}
+
+
+def correspond_trajectories(ctx, aliases):
+    """model `loadTrajectory` / `trajToDict` vs the real save_rdtrajectory / load_rdtrajectory, both storage modes"""
+    from props import c12
+    import numpy as np
+    import strengths.rdoutput as ro
+    rng = ctx.rng
+    root = tempfile.mkdtemp(prefix="verif_c12t_")
+    ops, meta = [], []
+    try:
+        for i in range(ctx.n(30, 600)):
+            spec = c12.gen_trajectory(rng)
+            x, err = c12.guarded(lambda: c12.build_trajectory(spec))
+            if err is not None:
+                continue
+            separate = rng.random() < 0.5
+            stem = "traj%d" % i
+            d = os.path.join(root, "t%d" % i)
+            os.makedirs(d)
+            given = os.path.join(d, stem + (".json" if rng.random() < 0.5 else ""))
+            try:
+                ro.save_rdtrajectory(x, given, separate_data=separate)
+                jp = os.path.join(d, stem + ".json")
+                saved = json.load(open(jp, encoding="utf-8"))
+                real = ro.load_rdtrajectory(jp)
+                rview = norm(rv_traj(real))
+            except Exception as ex:  # noqa
+                ctx.count("corr_traj_real_error")
+                continue
+            files = {jp: enc(tok_traj(aliases, saved))}
+            if separate:
+                files[os.path.join(d, stem + "_data.npy")] = enc(np.load(os.path.join(d, stem + "_data.npy")).tolist())
+            # a faulted variant now and then: the data file missing / an entry dropped
+            fault = None
+            if rng.random() < 0.15:
+                fault = rng.choice(["engine_option", "t_sample", "system", "data"])
+                sv = dict(saved)
+                del sv[fault]
+                files[jp] = enc(tok_traj(aliases, sv))
+                with open(jp, "w", encoding="utf-8") as f:
+                    json.dump(sv, f)
+                try:
+                    ro.load_rdtrajectory(jp)
+                    rview = "ok"
+                except Exception:  # noqa
+                    rview = None
+            ops.append({"op": "traj_load", "dir": d, "file": stem + ".json", "files": files,
+                        "data_ref": (stem + "_data.npy") if separate else None})
+            meta.append((spec, separate, rview, norm(enc_out(tok_traj(aliases, saved))), fault))
+        res = ctx.model.run(ops)
+        for (spec, separate, rview, rdict, fault), r in zip(meta, res):
+            ctx.count("corr_traj_separate" if separate else "corr_traj_inline")
+            ctx.case(("mt", json.dumps(spec, sort_keys=True), separate, fault), nontrivial=True)
+            if r is None:
+                continue
+            case = {"kind": "trajectory", "separate": separate, "fault": fault, "spec": spec}
+            if fault is not None:
+                if ("error" in r) != (rview is None):
+                    ctx.disagree("traj_load", case, "error" if rview is None else "ok", r if "error" in r else "ok")
+                continue
+            if "error" in r:
+                ctx.disagree("traj_load", case, "ok", r)
+                continue
+            if norm(r["ok"]["obj"]) != rview:
+                ctx.disagree("traj_load:object", case, first_diff(rview, norm(r["ok"]["obj"])), None)
+            elif norm(r["ok"]["dict"]) != rdict:
+                ctx.disagree("traj_load:to_dict", case, first_diff(rdict, norm(r["ok"]["dict"])), None)
+    finally:
+        shutil.rmtree(root, ignore_errors=True)
 
 
 def all_subdicts_of(rk, d):
